@@ -859,6 +859,26 @@ def rule_value_preserving(rep: Report, repo: Repo):
                 rep.fail(R, f"{mod}::{q} applies {what} to a computed value: `{txt[:80]}`",
                          "element values must be passed on as computed; a cast to the input's dtype, a rounding or a real-part "
                          "projection silently changes results for integer / real inputs", repo.loc(mod, node))
+    # a buffer that inherits its dtype from an input (zeros_like / empty_like / ones_like / full_like without dtype=) and is then
+    # filled with quotients: for an integer input every quotient is truncated on assignment
+    for mod in ("series", "algorithm_parsing", "block_diagonalization", "linalg", "second_quantization", "kpm"):
+        for fn in [x for x in ast.walk(repo.trees[mod]) if isinstance(x, ast.FunctionDef)]:
+            bufs = {}
+            for st in own_nodes(fn):
+                if isinstance(st, ast.Assign) and len(st.targets) == 1 and isinstance(st.targets[0], ast.Name) and isinstance(st.value, ast.Call) \
+                        and call_name(st.value) in ("np.zeros_like", "np.empty_like", "np.ones_like", "np.full_like") \
+                        and not any(k.arg == "dtype" for k in st.value.keywords) and st.value.args:
+                    bufs[st.targets[0].id] = st
+            for st in own_nodes(fn):
+                tgt = st.targets[0] if isinstance(st, ast.Assign) and len(st.targets) == 1 else (st.target if isinstance(st, ast.AugAssign) else None)
+                if isinstance(tgt, ast.Subscript) and isinstance(tgt.value, ast.Name) and tgt.value.id in bufs \
+                        and any(isinstance(x, ast.BinOp) and isinstance(x.op, ast.Div) for x in ast.walk(st.value)):
+                    n += 1
+                    src = norm(bufs[tgt.value.id].value.args[0])
+                    rep.fail(R, f"{mod}::{qualname(fn)} stores a quotient into `{tgt.value.id}`, a buffer that inherits the dtype of `{src}` "
+                                f"(`{norm(bufs[tgt.value.id].value)[:50]}`)",
+                             f"for an integer `{src}` the buffer is integer and `{norm(st.value)[:50]}` is truncated towards zero on assignment; "
+                             "give the buffer a floating dtype (np.result_type(..., float)) or compute with np.where", repo.loc(mod, st))
     rep.count("E4.lossless.sites", n)
     if n == 0:
         raise AnalysisError(R, "no conversion site found at all (the inventory above lists the known exact ones)")
